@@ -776,6 +776,7 @@ impl LdapConnAsync {
                             warn!("socket send error: {}", e);
                             return Err(LdapError::from(e));
                         } else {
+                            let unbound = matches!(op, LdapOp::Unbind);
                             match op {
                                 LdapOp::Single => {
                                     self.resultmap.insert(id, tx);
@@ -800,6 +801,12 @@ impl LdapConnAsync {
                             }
                             if let Err(e) = tx.send((Tag::Null(Null { ..Default::default() }), vec![])) {
                                 warn!("ldap null result send error: {:?}", e);
+                            }
+                            if unbound {
+                                // The transport is closed. End the driver, so that operations
+                                // still waiting for a response fail instead of hanging for as
+                                // long as the peer keeps its side of the connection open.
+                                break;
                             }
                         }
                     } else {
